@@ -182,7 +182,7 @@ var Properties = map[string]PropDef{
 		Bounds:      runBounds,
 		Assumptions: runAssumptions,
 		Outside:     "PARTIAL: programs outside the menu, runs that do not terminate, the heartbeat timer, GOMAXPROCS (true parallelism is covered only through the interleaving semantics), the non-polarised mode (the property speaks about the polarised modes)",
-		Harnesses:   []HarnessDef{{Name: "process.ZZC04Control"}, runMenuHarness(), runMenuUnreducedHarness(), structuralHarnesses()[0], structuralHarnesses()[1]},
+		Harnesses:   []HarnessDef{{Name: "process.ZZC04Control"}, runMenuHarness(), runMenuUnreducedHarness(), structuralHarnesses()[0], structuralHarnesses()[1], structuralPairHarness()},
 	},
 	"C03": {
 		ID: "C03", AssertPrefix: "C03.",
@@ -235,6 +235,13 @@ func structuralHarnesses() []HarnessDef {
 			Note: "all structural action sequences of length L over a replicable channel, three modes, every schedule"}
 	}
 	return []HarnessDef{mk(0), mk(1)}
+}
+
+// structuralPairHarness (thorough only): the same enumeration for a provider that sends a pair of
+// two spawned children (duplication cascades); L = 2 already takes 150 k paths.
+func structuralPairHarness() HarnessDef {
+	return HarnessDef{Name: "zzpub.ZZRunStructural", Quick: map[string]int{"L": 2, "FAMILY": 2}, Depth: 400, Loop: 3000, MaxPaths: 20000000, Sched: true, ThoroughOnly: true,
+		Note: "provider = pair of two spawned children, all structural action sequences of length 2"}
 }
 
 // runMenuHeavyHarness: the heavy programs without a monitor (C13 runs the light ones with a
